@@ -318,7 +318,7 @@ func (d *sliceDecoder) DecodePath(ctx *RuntimeContext, cursor, depth int64) ([][
 				return nil, 0, err
 			}
 			cursor += 4
-			return [][]byte{nullbytes}, cursor, nil
+			return [][]byte{[]byte(`null`)}, cursor, nil
 		case '[':
 			cursor++
 			cursor = skipWhiteSpace(buf, cursor)
@@ -337,10 +337,10 @@ func (d *sliceDecoder) DecodePath(ctx *RuntimeContext, cursor, depth int64) ([][
 						oldPath := ctx.Option.Path.node
 						ctx.Option.Path.node = child
 						paths, c, err := d.valueDecoder.DecodePath(ctx, cursor, depth)
+						ctx.Option.Path.node = oldPath
 						if err != nil {
 							return nil, 0, err
 						}
-						ctx.Option.Path.node = oldPath
 						ret = append(ret, paths...)
 						cursor = c
 					} else {
